@@ -183,7 +183,7 @@ theorem resolve_spec (db : Db) (path : List Nat) (keep : Bool) (al : Already) (h
 theorem pickDecl_spec (db : Db) (c : PCache) (d : Decl) (n : Name) (hc : Canon db d) (hn : d.name = n) :
     Canon db (pickDecl db c d) ∧ (pickDecl db c d).name = n := by
   unfold pickDecl
-  cases hg : aget c (d.name, d.ver.1) with
+  cases hg : aget c (d.name, d.ver.1, d.ver.2) with
   | none => exact ⟨hc, hn⟩
   | some k =>
     simp only
@@ -195,7 +195,7 @@ theorem pickDecl_spec (db : Db) (c : PCache) (d : Decl) (n : Name) (hc : Canon d
 
 theorem pickDecl_ver (db : Db) (c : PCache) (d : Decl) : (pickDecl db c d).ver.1 = d.ver.1 := by
   unfold pickDecl
-  cases hg : aget c (d.name, d.ver.1) with
+  cases hg : aget c (d.name, d.ver.1, d.ver.2) with
   | none => rfl
   | some k =>
     simp only
